@@ -16,7 +16,7 @@ import (
 func init() {
 	register(&Check{
 		ID: "C10", Level: "exploration", Primary: "pipelines", EvalCount: "pipelines_checked",
-		Rule: "pipelines <k requests> Unbind <m requests> for all k,m in 0..3 (0..8 in thorough) x {whole pipeline in one write (same TCP segment), one write per frame, byte-dribbled} x {unbind route registered, not registered} x " +
+		Rule: "pipelines <k requests> Unbind <m requests> for all k,m in 0..3 (0..8 in thorough) x {whole pipeline in one write (same TCP segment), one write per frame, byte-dribbled} x {no unbind route, unbind route registered, unbind route whose handler panics} x " +
 			"{earlier handlers finished, earlier handlers parked on a harness gate} x {plain, TLS}; the requests after the Unbind include every operation kind and a second Unbind. Oracle: the set of dispatched message IDs equals the k earlier ones; " +
 			"the unbind handler ran exactly once when registered; the strictly parsed stream up to EOF contains exactly one response per earlier request and nothing carrying the Unbind's or a later request's message ID; " +
 			"with parked handlers EOF is not seen before the gate opens and is seen after. distinct_nontrivial = distinct (k, m, write mode, route, parked, transport) combinations",
@@ -32,6 +32,7 @@ type c10Case struct {
 	K, M      int
 	Mode      string // one-write per-frame dribble
 	Route     bool
+	Panics    bool // the registered unbind handler panics (recovered by gldap): the connection must still end
 	Parked    bool
 	Transport string
 }
@@ -45,13 +46,13 @@ func c10Run(c *Ctx) {
 		for k := 0; k <= max; k++ {
 			for m := 0; m <= max; m++ {
 				for _, mode := range []string{"one-write", "per-frame", "dribble"} {
-					for _, route := range []bool{false, true} {
+					for _, route := range []int{0, 1, 2} {
 						for _, parked := range []bool{false, true} {
 							for _, tr := range []string{"plain", "tls"} {
 								if parked && k == 0 {
 									continue
 								}
-								cases = append(cases, c10Case{k, m, mode, route, parked, tr})
+								cases = append(cases, c10Case{k, m, mode, route > 0, route == 2, parked, tr})
 							}
 						}
 					}
@@ -122,6 +123,9 @@ func c10One(c *Ctx, pki *PKI, cs c10Case, r *Rand, idx int) {
 				mu.Lock()
 				unbindRuns++
 				mu.Unlock()
+				if cs.Panics {
+					panic("injected panic in the unbind handler (C10)")
+				}
 			})
 		}
 	})
@@ -263,7 +267,7 @@ func c10One(c *Ctx, pki *PKI, cs c10Case, r *Rand, idx int) {
 	mu.Lock()
 	defer mu.Unlock()
 	c.Count("pipelines_checked", 1)
-	c.Distinct("pipelines", fmt.Sprintf("%d/%d/%s/%v/%v/%s", cs.K, cs.M, cs.Mode, cs.Route, cs.Parked, cs.Transport))
+	c.Distinct("pipelines", fmt.Sprintf("%d/%d/%s/%v/%v/%v/%s", cs.K, cs.M, cs.Mode, cs.Route, cs.Panics, cs.Parked, cs.Transport))
 	seen := map[int64]int{}
 	for _, id := range dispatched {
 		seen[id]++
